@@ -3,7 +3,7 @@ use core::any::TypeId;
 use core::mem::{size_of, MaybeUninit};
 use core::ptr::NonNull;
 use crate::AnyVec;
-use crate::any_value::{AnyValue, AnyValueCloneable, AnyValueRaw, AnyValueSizelessRaw, AnyValueWrapper};
+use crate::any_value::{AnyValue, AnyValueCloneable, AnyValueRaw, AnyValueSizeless, AnyValueSizelessRaw, AnyValueTypeless, AnyValueWrapper};
 use crate::traits::{Cloneable, None};
 use super::ghost::*;
 use super::post;
@@ -199,7 +199,28 @@ fn insert_lazy_clone<T: 'static>(push: bool) {
 
 /// same operation, watching an old element `w` of the *target*: it must be out of sight while the
 /// user's `Clone` runs (panic-view invariant inside the clone call-out) and end where Vec puts it
-fn insert_lazy_clone_tgt<T: 'static>(push: bool) {
+fn insert_lazy_clone_tgt<T: 'static>(push: bool) { insert_lazy_clone_tgt_k::<T>(push, false) }
+
+/// A user-implemented cloneable value whose element type is known at compile time (`type Type = T`): its lazy
+/// clone takes the *known-type* branch of `insert_unchecked` / `push_unchecked`.  Cloning it is user code: the
+/// recorder (which checks the panic-view invariant) stands for `T::clone`.
+pub struct KnownSrc<T> { pub p: *const u8, pub ph: core::marker::PhantomData<T> }
+impl<T: 'static> AnyValueSizeless for KnownSrc<T> {
+    type Type = T;
+    fn as_bytes_ptr(&self) -> *const u8 { self.p }
+}
+impl<T: 'static> AnyValueTypeless for KnownSrc<T> {
+    fn size(&self) -> usize { size_of::<T>() }
+}
+impl<T: 'static> AnyValue for KnownSrc<T> {
+    fn value_typeid(&self) -> TypeId { TypeId::of::<T>() }
+}
+impl<T: 'static> AnyValueCloneable for KnownSrc<T> {
+    unsafe fn clone_into(&self, out: *mut u8) { rec_clone(self.p, out, 1) }
+}
+
+/// `known`: the lazy clone's source is a `KnownSrc<T>` (known-type branch) instead of an erased element reference
+fn insert_lazy_clone_tgt_k<T: 'static>(push: bool, known: bool) {
     ghost_init();
     let (len, cap) = sym_state();
     kani::assume(len >= 1);
@@ -214,11 +235,15 @@ fn insert_lazy_clone_tgt<T: 'static>(push: bool) {
     let j = any_narrow();
     kani::assume(j < len_b);
     let index = if push { len } else { let i = any_narrow(); kani::assume(i <= len); i };
-    {
+    if known {
+        let src = KnownSrc::<T> { p: arena_ptr(base(1) + j * esz) as *const u8, ph: core::marker::PhantomData };
+        if push { v.push(src.lazy_clone()) } else { v.insert(index, src.lazy_clone()) }
+    } else {
         let e = other.at(j);
         if push { v.push(e.lazy_clone()) } else { v.insert(index, e.lazy_clone()) }
     }
     let len2 = v.len();
+    kani::assert(g().n_clone_calls == 1, "lazy clone insert: exactly one clone call-out");
     if esz != 0 {
         let pos = post::insert_old_pos(len, index, w);
         let (n, p, a, d, o) = obs(TW, 0, len2, pos);
